@@ -110,6 +110,24 @@ theorem C03_front_end_first_offending {P : Type} [Inhabited P] (w : List (Tok Na
       (cf.rest = [] → ∀ t, WF kikiG t (.n kikiG.start) → t.yield ≠ w) :=
   C03_first_offending C09.C09_table_valid C03_front_end.1 C03_front_end.2 w fuel cf hrun
 
+/-- **every non-sentence is rejected, per certified table**: with the termination certificate of `LR/Halt`
+(evaluated by the correspondence run on the table of every accepted grammar), the emitted parse loop *stops* on
+every token sequence that is not a sentence, and stops with an error — which, when every nonterminal is
+productive, reports the first offending token (`C03_every_grammar`) -/
+theorem C03_framed_rejects {P : Type} (vf : VFile.File) (enc : Encode.Enc) (m : Machine.Machine)
+    (t : Table.Table) (fuel : Nat) (he : Encode.encode vf = some enc)
+    (hm : Machine.machineOf enc.ctx fuel = some (some m)) (ht : Table.machineToTable enc.ctx m = .ok t)
+    (fm : List Machine.FirstSet) (hcert : Halt.certifiedF (Assemble.certOf enc.ctx fm m t) enc.ctx.g = true)
+    (w : List (Tok Nat P)) (hns : ¬ ∃ tr : Tree Nat P, WF enc.ctx.g tr (.n enc.ctx.g.start) ∧ tr.yield = w) :
+    ∃ fuel' cf, runCfg enc.ctx.g (Driver.autoOfTable t) fuel' ⟨[(Driver.autoOfTable t).start], [], w⟩ = some (.err, cf) := by
+  obtain ⟨fuel', r, cf, hrun, hnp, hiff⟩ := Universal.emitted_parser_decidesF (Encode.encode_ok he) hm ht fm hcert w
+  refine ⟨fuel', cf, ?_⟩
+  cases r with
+  | err => exact hrun
+  | panic => exact absurd rfl hnp
+  | ok tr => exact absurd (hiff.mp ⟨tr, rfl⟩) hns
+  | cont c' => exact absurd rfl (runCfg_ne_cont _ _ _ _ hrun c')
+
 end KikiVerif.C03
 
 #print axioms KikiVerif.C03.C03_front_end_first_offending
@@ -119,3 +137,4 @@ end KikiVerif.C03
 #print axioms KikiVerif.C03.C03_lookahead_only
 #print axioms KikiVerif.C03.C03_first_offending
 #print axioms KikiVerif.C03.C03_front_end
+#print axioms KikiVerif.C03.C03_framed_rejects
